@@ -46,6 +46,31 @@ func (reg *Registry[E]) ReadFrom(r io.Reader) (int64, error) {
 	return n, nil
 }
 
+// WriteTo writes the registry in the form ReadFrom reads: the number of entries, then every entry in
+// id order as its key, a true Boolean and the NBT of its value.
+func (reg *Registry[E]) WriteTo(w io.Writer) (int64, error) {
+	keys := make([]string, len(reg.values))
+	for key, id := range reg.keys {
+		keys[id] = key
+	}
+	n, err := pk.VarInt(len(reg.values)).WriteTo(w)
+	if err != nil {
+		return n, err
+	}
+	for i := range reg.values {
+		n1, err := pk.Tuple{
+			pk.Identifier(keys[i]),
+			pk.Boolean(true),
+			pk.NBTField{V: &reg.values[i]},
+		}.WriteTo(w)
+		n += n1
+		if err != nil {
+			return n, err
+		}
+	}
+	return n, nil
+}
+
 func (reg *Registry[E]) ReadTagsFrom(r io.Reader) (int64, error) {
 	var count pk.VarInt
 	n, err := count.ReadFrom(r)
